@@ -378,6 +378,21 @@ func legacyBytes(l legacy) ([]byte, bool) {
 	case "dropMapHeader":
 		doc = bytes.Replace(doc, []byte("MAPPED_LIBRARIES:"), nil, 1)
 		doc = bytes.Replace(doc, []byte("--- Memory map: ---"), nil, 1)
+	case "mapAnonHuge", "mapEmpty":
+		// replace the memory map by one holding a single /anon_hugepage mapping, or nothing at all
+		for _, marker := range []string{"MAPPED_LIBRARIES:", "--- Memory map: ---"} {
+			if k := bytes.Index(doc, []byte(marker)); k >= 0 {
+				doc = doc[:k]
+			}
+		}
+		if binaryDoc {
+			return nil, false
+		}
+		doc = append(append([]byte{}, doc...), []byte("\n--- Memory map: ---\n")...)
+		if l.Mut == "mapAnonHuge" {
+			names := []string{"/anon_hugepage (deleted)", "/anon_hugepage", "/anon_hugepagexyz"}
+			doc = append(doc, []byte("00400000-00500000 r-xp 00000000 00:00 0 "+names[l.Pos%3]+"\n")...)
+		}
 	case "mapGarbage":
 		doc = append(doc, []byte("\nMAPPED_LIBRARIES:\nzzzz-yyyy r-xp q\n-\n00400000-003ff000 r-xp 00000000 00:00 0 /x\nffffffffffffffffff-0 r-xp 0 0 0\n")...)
 	case "nstkHuge", "noEndMarker", "wordSwap":
@@ -642,6 +657,29 @@ func main() {
 		var s soup
 		if err := json.Unmarshal(raw, &s); err != nil {
 			run.Infra("case decode: " + err.Error())
+			return
+		}
+		if strings.HasPrefix(s.Legacy.Doc, "tiny:") {
+			var data []byte
+			switch strings.TrimPrefix(s.Legacy.Doc, "tiny:") {
+			case "scalar":
+				data = []byte{0x48, 0x01} // time_nanos = 1, nothing else
+			case "emptymsg":
+				data = []byte{0x0a, 0x00} // one empty sample_type message
+			case "unknownonly":
+				data = []byte{0xa0, 0x06, 0x05, 0xaa, 0x06, 0x01, 0x78} // fields 100 and 101 only
+			case "twoscalars":
+				data = []byte{0x48, 0x01, 0x50, 0x02}
+			case "emptystring":
+				data = []byte{0x32, 0x00} // the string table holds only ""
+			case "onlycomment":
+				data = []byte{0x68, 0x00}
+			}
+			if s.Wrap == "gzip" {
+				data = gz(data)
+			}
+			feed(n, "tiny:"+s.Wrap, data, s.Legacy)
+			n++
 			return
 		}
 		if s.Legacy.Doc != "" {
